@@ -282,7 +282,40 @@ SHEETS += [
 </xsl:stylesheet>''' % X),
 ]
 
-LAZY_SHEETS = [i for i, t in enumerate(SHEETS) if t[1] in (
+# an abort while an element INSIDE a result tree fragment is open and its start tag has been flushed (the pooled
+# FormatterToSourceTree keeps a pointer to it; the next fragment built with the same formatter must not see it); seed C03_f
+SHEETS += [
+    ("run", "error-in-rtf-open-element", '''<xsl:stylesheet %s><xsl:output method="xml" omit-xml-declaration="yes"/>
+ <xsl:variable name="K" select="count(//item) mod 3"/>
+ <xsl:template match="/"><r><xsl:for-each select="//item">
+  <xsl:variable name="a">lead<e id="{@id}">in-e<f>g</f>%s<xsl:variable name="b">b-lead<h>in-h%s</h></xsl:variable><xsl:copy-of select="$b"/>%s</e>tail</xsl:variable>
+  <i><xsl:copy-of select="$a"/></i>
+ </xsl:for-each></r></xsl:template>
+</xsl:stylesheet>''' % (X, term_if("$K = 1"), term_if("$K = 2"), term_if("$K = 0"))),
+    ("ok", "rtf-leading-content", '''<xsl:stylesheet %s><xsl:output method="xml" omit-xml-declaration="yes"/>
+ <xsl:template match="/"><r><xsl:variable name="a">first<b>B<xsl:variable name="c">c-first<d>D</d>c-second</xsl:variable><xsl:copy-of select="$c"/>|<xsl:value-of select="$c"/></b>second<c n="{count(//item)}"/>third</xsl:variable>
+  <xsl:copy-of select="$a"/>|<xsl:value-of select="$a"/></r></xsl:template>
+</xsl:stylesheet>''' % X),
+]
+
+# state kept by the format-number functor installed once per transformer (ICU build: a cache of DecimalFormat objects keyed by
+# the symbols of xsl:decimal-format): declarations that differ in exactly ONE symbol, used one after the other (seed C06_g)
+def _df_sheet(attr, val):
+    sym = {"NaN": "NaN", "infinity": "Infinity", "minus-sign": "-", "percent": "%%", "per-mille": "&#x2030;"}
+    if attr:
+        sym[attr] = val
+    decl = " ".join('%s="%s"' % (k, v) for k, v in sorted(sym.items()))
+    pc, pm = sym["percent"], sym["per-mille"]
+    return ('''<xsl:stylesheet %s><xsl:output method="text" encoding="UTF-8"/><xsl:decimal-format name="f" %s/><xsl:decimal-format %s/>
+ <xsl:template match="/"><xsl:for-each select="(//item)[position() &lt; 3]"><xsl:value-of select="format-number(number('x'), '#,##0.00', 'f')"/>;<xsl:value-of select="format-number(1 div 0, '#,##0.00', 'f')"/>;<xsl:value-of select="format-number(-1 div 0, '#,##0.00')"/>;<xsl:value-of select="format-number(-7 - position(), '#,##0.00', 'f')"/>;<xsl:value-of select="format-number(0.256, '#0.0%s', 'f')"/>;<xsl:value-of select="format-number(0.0256, '#0.0%s')"/>;<xsl:value-of select="format-number(number(@nope), '0')"/>|</xsl:for-each></xsl:template>
+</xsl:stylesheet>''' % (X, decl, decl, pc, pm)).replace("%%", "%")
+
+
+DF_VARIANTS = [("", ""), ("NaN", "n/a"), ("NaN", "-"), ("infinity", "inf"), ("minus-sign", "~"), ("percent", "!"), ("per-mille", "?")]
+SHEETS += [("ok", "decimal-format-%d" % k, _df_sheet(a, v)) for k, (a, v) in enumerate(DF_VARIANTS)]
+DF_SHEETS = [i for i, t in enumerate(SHEETS) if t[1].startswith("decimal-format-")]
+
+LAZY_SHEETS = [i for i, t in enumerate(SHEETS) if t[1] in ("error-in-rtf-open-element",
     "error-in-global-var-body", "error-in-global-var-select", "error-in-global-param-default",
     "error-in-call-template-params", "error-in-apply-imports", "error-in-attribute-set", "error-in-key-build",
     "error-in-sort-key-text", "error-in-number-count",
@@ -293,8 +326,8 @@ FACILITY = {
     "sort": ["sort-text-foreach", "sort-number-apply", "sort-lang", "sort-lang-upper", "sort-lang-plain", "sort-lang-lower", "sort+modes", "error-in-sort-key-text", "error-in-sort-key-number", "error-in-sort-key-second", "rtf+nodeset"],
     "number": ["number", "error-in-number-count", "error-in-number-count-walk", "deep-no-boom"],
     "key": ["keys+modes", "document", "error-in-key-build", "deep-no-boom"],
-    "format-number": ["format-number-custom", "error-in-format-number"],
-    "rtf": ["rtf-observer", "error-in-rtf-text", "error-in-rtf-nested", "rtf+nodeset", "deep-no-boom", "error-in-global-var-body"],
+    "format-number": ["format-number-custom", "error-in-format-number"] + ["decimal-format-%d" % k for k in range(7)],
+    "rtf": ["rtf-observer", "rtf-leading-content", "error-in-rtf-open-element", "error-in-rtf-text", "error-in-rtf-nested", "rtf+nodeset", "deep-no-boom", "error-in-global-var-body"],
     "attribute-body": ["error-in-attribute-body", "attrsets+text", "deep-no-boom", "error-in-attribute-set", "rtf-observer"],
     "xpath-caches": ["error-in-xpath-caches", "vars+recursion", "sort+modes", "rtf-observer"],
 }
